@@ -81,6 +81,14 @@ CLAIMED = {
         "Trusted: z3 LIA, the Jinja/Python AST condition translators (untranslatable conditions are left unconstrained = link may be emitted).",
         "DESIGN.md §5 C09",
     ),
+    "C13": (
+        "symbolic execution of the real graph hop expansion on stand-in nodes with symbolic relation and symbolic unbounded limits, decided by z3",
+        "For every relation over up to 3 (thorough: 4) nodes (edge presence symbolic; cycles, self loops, diamonds, disconnected parts) and symbolic "
+        "graph_maxnodes / graph_maxdepth the 8 per-entity graph classes add exactly the hop levels that fit, emit exactly the relation's edges of the "
+        "expanded nodes with the right orientation ('by' graphs = inverse traversal of the same edges), and never emit a dangling edge.",
+        "Trusted: z3, DSE engine, the reference expansion in fv/props/c13.py; graph attributes initialised as FortranGraph.__init__ does.",
+        "DESIGN.md §5 C13",
+    ),
 }
 
 NOT_APPLICABLE = {
